@@ -21,6 +21,8 @@ ASSUMED = ['numpy / sympy implementations of sqrt, cos, sin, cosh, sinh, sinc (n
 def build(H, tier, seed):
     M.vc_outerexp(H)
     M.vc_pow(H)
+    from contracts import powers_c as PW
+    PW.vc_pow_generic(H)
     M.vc_codegen_sqrt(H)
     M.vc_exp(H)
     from contracts import inverse_c as I
